@@ -1027,6 +1027,24 @@ class Evaluator:
     _objcount = itertools.count()
 
     def comp(s, e, env, mod, depth, kind):
+        if len(e.generators) > 1 and kind == 'dict' and not e.generators[0].is_async:
+            # {k: v for a in CONCRETE for b in g(a)}: the outer generator over a concrete short sequence is unrolled, the entries of each item merged in order
+            g0 = e.generators[0]
+            it0 = s._iterable(s.ev(g0.iter, {'__parent__': env}, mod, depth))
+            if isinstance(it0, dict) and all(not isinstance(k_, Opq) for k_ in it0): it0 = [k_.v if isinstance(k_, _HK) else k_ for k_ in it0]
+            if isinstance(it0, (list, tuple)) and len(it0) <= 24:
+                out_, ok_ = {}, True
+                inner = ast.copy_location(ast.DictComp(key=e.key, value=e.value, generators=e.generators[1:]), e)
+                for item in it0:
+                    env3 = {'__parent__': env}
+                    s.assign(g0.target, item, env3, mod, depth)
+                    fl = [s.truth(s.ev(c, env3, mod, depth)) for c in g0.ifs]
+                    if any(f is False for f in fl): continue
+                    if any(f is not True for f in fl): ok_ = False; break
+                    sub = s.ev(inner, env3, mod, depth)
+                    if isinstance(sub, dict): out_.update(sub)
+                    else: ok_ = False; break
+                if ok_: return out_
         if len(e.generators) > 1 and kind in ('list', 'gen', 'set') and not e.generators[0].is_async:
             # [f(c, w) for c in CONCRETE for w in g(c)]: the outer generator over a concrete short sequence is unrolled, the rest is the
             # comprehension of each item
@@ -1080,6 +1098,15 @@ class Evaluator:
                             return {(k if not isinstance(k, (Poly, Ref)) else _HK(k)): v for k, v in out}          # (a table keyed by classes / functions)
                     else:
                         return (LazyList(out) if kind == 'gen' else out) if kind in ('list', 'gen') else Opq('set', *out)
+            if len(e.generators) == 1 and kind in ('list', 'gen') and isinstance(it, Opq) and it.k and it.k[0] == 'concat' and len(it.k) <= 9:
+                # [f(x) for x in a + b + c]  is  [f(x) for x in a] + [f(x) for x in b] + [f(x) for x in c]
+                parts_ = []
+                for p_ in it.k[1:]:
+                    g1 = ast.comprehension(target=g.target, iter=_TermNode(p_), ifs=g.ifs, is_async=0)
+                    parts_.append(s.ev(ast.copy_location(ast.ListComp(elt=e.elt, generators=[g1]), e), env, mod, depth))
+                out_ = parts_[0]
+                for p_ in parts_[1:]: out_ = s._binop(ast.Add(), out_, p_)
+                return out_
             depth_id = len(gens)
             pos_ = _positions_of(it)
             if pos_ is not None and isinstance(g.target, ast.Name):
@@ -2048,6 +2075,9 @@ class Evaluator:
         if isinstance(a, Cond):
             return Cond(a.g, s.npcall(name, [a.a] + list(args[1:]), kw), s.npcall(name, [a.b] + list(args[1:]), kw))
         if name == 'isfinite': return True if s.assume_finite else Opq('isfinite', a)
+        if name == 'atleast_2d' and len(args) == 1 and not kw and isinstance(a, Opq) and a.k and a.k[0] in ('np.zeros', 'np.empty', 'np.ndarray', 'np.ones'):
+            sh_ = next((x_.k[2] for x_ in a.k[1:] if isinstance(x_, Opq) and x_.k[0] == 'kw' and x_.k[1] == 'shape'), a.k[1] if len(a.k) > 1 and not (isinstance(a.k[1], Opq) and a.k[1].k[0] == 'kw') else None)
+            if isinstance(sh_, (tuple, list)) and len(sh_) == 2: return a          # already a matrix
         if name in ('logical_not', 'invert') and len(args) == 1 and not kw and isinstance(a, Comp) and a.kind in ('list', 'gen') and _is_boolterm(a.elt):
             return Comp(s.negate(a.elt), a.gens, 'list')          # element-wise negation of a list of truth values
         # block assembly normal form: hcat(parts...) / vcat(parts...), nested same-kind joins flattened
@@ -2057,7 +2087,12 @@ class Evaluator:
             flat_ = []
             for sg_ in segs:
                 if isinstance(sg_, (list, tuple)): flat_ += list(sg_)
-                elif isinstance(sg_, Comp) and sg_.kind in ('list', 'gen'): flat_.append(Opq('rows', Comp(sg_.elt, sg_.gens, 'list')))
+                elif isinstance(sg_, Comp) and sg_.kind in ('list', 'gen'):
+                    el_ = sg_.elt
+                    at2_ = el_.as_atom() if isinstance(el_, Poly) else None
+                    if name in ('vstack', 'concatenate', 'row_stack') and isinstance(at2_, tuple) and len(at2_) == 2 and at2_[0] == 'atleast_2d' and term_from_key(at2_[1]) is not None:
+                        el_ = term_from_key(at2_[1])          # stacked as rows anyway
+                    flat_.append(Opq('rows', Comp(el_, sg_.gens, 'list')))
                 else: flat_ = None; break
             if flat_: a = flat_; args = [a] + list(args[1:])
         if name in ('hstack', 'vstack', 'concatenate', 'block', 'column_stack', 'row_stack') and isinstance(a, (list, tuple)) and a:
@@ -2600,6 +2635,11 @@ class Evaluator:
         if isinstance(v, Opq) and v.k and v.k[0] == 'set' and len(v.k) == 1: return 'set'
         return None
 
+    def _acc_ok(s, v, kind):
+        """may `v` be the accumulator of an append / add / store loop of this kind?  an empty container, or a list that already holds items"""
+        if s._empty_acc(v) == kind: return True
+        return kind == 'list' and (isinstance(v, list) or (isinstance(v, Comp) and v.kind == 'list') or (isinstance(v, Opq) and bool(v.k) and v.k[0] == 'concat'))
+
     def accumulate(s, st, it, env, mod, depth):
         """out = [] / set() / {}; for x in it: [tmp = ..] [if c: continue] [if c:] out.append(e) / out.add(e) / out[k] = v   (loops may nest)
         is the comprehension  [e for x in it if c]  -- recognised so that either spelling has the same normal form"""
@@ -2636,7 +2676,7 @@ class Evaluator:
                     c1 = stx.body[0].value
                     place = s._acc_target(c1.func.value, env, mod, depth)
                     kind = {'append': 'list', 'add': 'set'}[c1.func.attr]
-                    if place is None or s._empty_acc(place[2]) != kind or (place[0], _pk(place[1])) in records: ok[0] = False; return
+                    if place is None or not s._acc_ok(place[2], kind) or (place[0], _pk(place[1])) in records: ok[0] = False; return
                     a_ = s.ev(c1.args[0], env2, mod, depth); b_ = s.ev(stx.orelse[0].value.args[0], env2, mod, depth)
                     records[(place[0], _pk(place[1]))] = (place, kind, s.mkcond(g, a_, b_)); continue
                 if isinstance(stx, ast.If):
@@ -2663,14 +2703,14 @@ class Evaluator:
                 if isinstance(stx, ast.Expr) and isinstance(stx.value, ast.Call) and isinstance(stx.value.func, ast.Attribute) and stx.value.func.attr in ('append', 'add') and len(stx.value.args) == 1:
                     place = s._acc_target(stx.value.func.value, env, mod, depth)
                     kind = {'append': 'list', 'add': 'set'}[stx.value.func.attr]
-                    if place is None or s._empty_acc(place[2]) != kind or (place[0], _pk(place[1])) in records: ok[0] = False; return
+                    if place is None or not s._acc_ok(place[2], kind) or (place[0], _pk(place[1])) in records: ok[0] = False; return
                     records[(place[0], _pk(place[1]))] = (place, kind, s.ev(stx.value.args[0], env2, mod, depth)); continue
                 if isinstance(stx, ast.Expr) and isinstance(stx.value, ast.Call) and isinstance(stx.value.func, ast.Attribute) and stx.value.func.attr in ('extend', 'update') \
                         and len(stx.value.args) == 1 and not stx.value.keywords and stx is stmts[-1]:
                     # out.extend(xs) / out.update(xs)  ==  one more generator:  ... for y in xs  with element y
                     place = s._acc_target(stx.value.func.value, env, mod, depth)
                     kind = {'extend': 'list', 'update': 'set'}[stx.value.func.attr]
-                    if place is None or s._empty_acc(place[2]) != kind or (place[0], _pk(place[1])) in records: ok[0] = False; return
+                    if place is None or not s._acc_ok(place[2], kind) or (place[0], _pk(place[1])) in records: ok[0] = False; return
                     it2 = s._iterable(s.ev(stx.value.args[0], env2, mod, depth))
                     if isinstance(it2, dict) or kind == 'set' and s._empty_acc(place[2]) == 'dict': ok[0] = False; return
                     gens.append((it2, []))
@@ -2704,6 +2744,7 @@ class Evaluator:
                     gs.append((g_it, [f for f in fs if f is not True]))
             if any(f is False for _, fs in gs for f in fs): val = {'list': [], 'set': Opq('set'), 'dict': {}}[kind]
             else: val = Comp(elt, gs, kind)
+            if kind == 'list' and s._empty_acc(place[2]) != 'list': val = s._binop(ast.Add(), place[2], val)      # appended to what the list already held
             if place[0] == 'name': s.rebind(place[1], val, env)
             elif place[0] == 'store': s.stores[place[1]] = val
             else: place[1][0].f[place[1][1]] = val
